@@ -76,6 +76,16 @@ def cells(tier, seed):
                 out.append({'dim': 2, 'wave': w, 'mode': mode, 'J': rnd.choice([1, 2, 3, 4]),
                             'shape': [rnd.choice(BIG), rnd.choice(BIG + [16, 17])], 'N': 1, 'C': 2,
                             'noimp': True})
+    # the long-signal regime (more than 2^14 samples along an axis) is sampled by a few cells
+    for mode in refs.MODES:
+        for _ in range(1 if tier == 'quick' else 4):
+            w = rnd.choice([v for v in waves if 4 <= refs.flen(v) <= 20])
+            out.append({'dim': 1, 'wave': w, 'mode': mode, 'J': rnd.choice([1, 2, 3]), 'shape': [rnd.randrange(17000, 50000)],
+                        'N': 1, 'C': 2, 'noimp': True})
+        w = rnd.choice([v for v in waves if 4 <= refs.flen(v) <= 12])
+        tall = [rnd.randrange(17000, 30000), rnd.choice([3, 4, 6])]
+        out.append({'dim': 2, 'wave': w, 'mode': mode, 'J': rnd.choice([1, 2]), 'shape': tall if rnd.random() < 0.5 else tall[::-1],
+                    'N': 1, 'C': 1, 'noimp': True})
     short = [w for w in waves if refs.flen(w) <= 20]
     for c in out:
         if c['mode'] == 'periodization' and rnd.random() < 0.2:
